@@ -306,6 +306,29 @@ class Check:
         self.notes = notes or ""
         self.harness_timeout = harness_timeout
 
+    def correspondence(self, tier, seed, replay=None):
+        """Run Go and the Coq model on the same cases.
+        Returns (summary dict, mismatches [dict(index, code, case, coq, kind)], problems [dict(kind, detail)]).
+        code bit 2: Go differs from the Spec on an in-domain input; bit 1: Go differs from the Impl model."""
+        empty = dict(evaluations=0, distinct_nontrivial=0, samples=[], histogram={}, rule="")
+        rc, out = build_harness(self.harness_prop)
+        if rc != 0:
+            return empty, [], [dict(kind="correspondence", detail="harness does not build against the repository's working tree:\n" + out[-3000:])]
+        outdir = os.path.join(RUN, self.prop if REPO == "/repo" else self.prop + "_" + hashlib.sha1(REPO.encode()).hexdigest()[:8])
+        extra = [replay] if replay else []
+        rc, out = run_harness(self.harness_prop, outdir, seed, tier, extra, timeout=self.harness_timeout)
+        if rc != 0:
+            return empty, [], [dict(kind="correspondence", detail="harness run failed (rc=%d):\n%s" % (rc, out[-3000:]))]
+        summ, mism, errors = eval_cases(outdir)
+        problems = [dict(kind="correspondence", detail="model evaluation failed: " + e) for e in errors]
+        found = []
+        if mism:
+            cases = load_cases(outdir, [i for i, _ in mism])
+            for i, code in mism:
+                c = cases.get(i, {})
+                found.append(dict(index=i, code=code, case=c.get("case"), coq=c.get("coq"), kind=c.get("kind")))
+        return summ, found, problems
+
     def run(self, tier, seed, replay=None):
         t0 = time.time()
         prop = self.prop
@@ -348,43 +371,27 @@ class Check:
             discharged += res.get("discharged", 0)
             problems.extend(res.get("problems", []))
 
-        rc, out = build_harness(self.harness_prop)
-        if rc != 0:
-            problems.append(dict(kind="correspondence", detail="harness does not build against /repo's working tree:\n" + out[-3000:]))
-            summ, mism, errors = dict(evaluations=0, distinct_nontrivial=0, samples=[], histogram={}, rule=""), [], []
-            outdir = None
-        else:
-            outdir = os.path.join(RUN, prop if REPO == "/repo" else prop + "_" + hashlib.sha1(REPO.encode()).hexdigest()[:8])
-            extra = [replay] if replay else []
-            rc, out = run_harness(self.harness_prop, outdir, seed, tier, extra, timeout=self.harness_timeout)
-            if rc != 0:
-                problems.append(dict(kind="correspondence", detail="harness run failed (rc=%d):\n%s" % (rc, out[-3000:])))
-                summ, mism, errors = dict(evaluations=0, distinct_nontrivial=0, samples=[], histogram={}, rule=""), [], []
-            else:
-                summ, mism, errors = eval_cases(outdir)
-                for e in errors:
-                    problems.append(dict(kind="correspondence", detail="model evaluation failed: " + e))
+        summ, found, cproblems = self.correspondence(tier, seed, replay)
+        problems.extend(cproblems)
+        mism = found
 
         # classify mismatches
         known = known_findings(prop)
         known_hit = {}
         viol_cases = []
-        if mism:
-            cases = load_cases(outdir, [i for i, _ in mism])
-            for i, code in mism:
-                c = cases.get(i, {})
-                hit = None
-                for k in known:
-                    if k.get("status") != "known":
-                        continue
-                    pred = self.known_match.get(k["key"]["shape"])
-                    if pred and pred(c.get("case"), code):
-                        hit = k
-                        break
-                if hit is not None:
-                    known_hit.setdefault(hit["key"]["shape"], []).append(i)
+        for m in found:
+            hit = None
+            for k in known:
+                if k.get("status") != "known":
                     continue
-                viol_cases.append(dict(index=i, code=code, case=c.get("case"), coq=c.get("coq"), kind=c.get("kind")))
+                pred = self.known_match.get(k["key"]["shape"])
+                if pred and pred(m.get("case"), m.get("code")):
+                    hit = k
+                    break
+            if hit is not None:
+                known_hit.setdefault(hit["key"]["shape"], []).append(m.get("index"))
+                continue
+            viol_cases.append(m)
 
         for k in known:
             if k.get("status") == "known":
